@@ -137,8 +137,20 @@ impl Prop for C14 {
             match rng.below(3) {
                 0 => {
                     let id = pick_id(rng, &active, &removed);
-                    let params = if rng.chance(1, 2) { vec![("k".to_string(), (*rng.pick(&["v", "", "1"])).to_string())] } else { vec![] };
-                    ops.push(Op::Relax { id, reason: (*rng.pick(&["manual", "", "presolve", "penalty_method"])).to_string(), params });
+                    // parameters: none, one, or several - keys and values are free text (blanks around them, a blank-only
+                    // key, keys that differ in blanks only, an empty key, non-ASCII)
+                    let params: Vec<(String, String)> = match rng.below(4) {
+                        0 | 1 => vec![],
+                        2 => vec![("k".to_string(), (*rng.pick(&["v", "", "1", " v ", "\u{3000}v"])).to_string())],
+                        _ => {
+                            let keys = ["k", " k", "k ", " ", "", "weight[1]", "\u{3000}", "重み"];
+                            let n = 1 + rng.usize(4);
+                            let mut ks: Vec<&str> = keys.to_vec();
+                            rng.shuffle(&mut ks);
+                            ks.into_iter().take(n).map(|k| (k.to_string(), (*rng.pick(&["v", "", " 1 ", "two words", "\t"])).to_string())).collect()
+                        }
+                    };
+                    ops.push(Op::Relax { id, reason: (*rng.pick(&["manual", "", "presolve", "penalty_method", " spaced "])).to_string(), params });
                     if let Some(p) = active.iter().position(|a| *a == id) {
                         active.remove(p);
                         removed.push(id);
@@ -287,6 +299,59 @@ impl Prop for C14 {
                             }
                             for (class, detail) in diff_solution(&r2, &sol).expect("reference model") {
                                 x.violate(&format!("C14:evaluate:{class}"), format!("step {step}: {detail}"));
+                            }
+                            // the same through evaluate_samples: all the states of this history as samples (IDs are labels:
+                            // several per state, in no particular order), every sample read back through SampleSet::get
+                            if case.hash_seed % 3 == 0 {
+                                let states: Vec<&Vec<(u64, F)>> = case.ops.iter().filter_map(|o| if let Op::Evaluate { state } = o { Some(state) } else { None }).collect();
+                                let pool: [u64; 8] = [u64::MAX, 5, 0, 7, 1 << 32, 3, 1000, 2];
+                                let mut samples = v1::Samples::default();
+                                let mut label: Vec<(u64, usize)> = vec![];
+                                for (k, st) in states.iter().enumerate().take(4) {
+                                    let mut e = v1::samples::SamplesEntry::default();
+                                    e.state = Some(v1_state(st));
+                                    e.ids = if (case.hash_seed >> 8) % 2 == 0 { vec![pool[2 * k], pool[2 * k + 1]] } else { vec![pool[2 * k]] };
+                                    for id in &e.ids {
+                                        label.push((*id, k));
+                                    }
+                                    samples.entries.push(e);
+                                }
+                                x.count("probe.evaluate_samples");
+                                match x.sut(|| inst.evaluate_samples(&samples)) {
+                                    Err(p) => x.violate("C14:panic", format!("step {step}: evaluate_samples panicked: {p}")),
+                                    Ok(Err(e)) => x.violate("C14:evaluate-fails", format!("step {step}: evaluate_samples failed on in-bound complete states: {e:#}")),
+                                    Ok(Ok((ss, _))) => {
+                                        for (id, k) in &label {
+                                            let mut rk = ref_evaluate(&original, &assign_of(states[*k])).expect("reference model");
+                                            rk.feasible_relaxed = rk.constraints.iter().filter(|c| m.active.contains(&c.id)).all(|c| c.holds);
+                                            for c in &mut rk.constraints {
+                                                c.removed = m.removed.contains_key(&c.id);
+                                            }
+                                            if ss.feasible.get(id) != Some(&rk.feasible) || ss.feasible_relaxed.get(id) != Some(&rk.feasible_relaxed) {
+                                                x.violate(
+                                                    "C14:evaluate-samples:feasible",
+                                                    format!("step {step}: sample {id}: expected feasible={} relaxed={}, the sample set says {:?} / {:?}", rk.feasible, rk.feasible_relaxed, ss.feasible.get(id), ss.feasible_relaxed.get(id)),
+                                                );
+                                            }
+                                            match x.sut(|| ss.get(*id)) {
+                                                Err(p) => x.violate("C14:panic", format!("step {step}: SampleSet::get panicked: {p}")),
+                                                Ok(Err(e)) => x.violate("C14:evaluate-samples:sample-unreadable", format!("step {step}: sample {id} cannot be read back: {e:#}")),
+                                                Ok(Ok(s1)) => {
+                                                    for (class, detail) in diff_solution(&rk, &s1).expect("reference model") {
+                                                        x.violate(&format!("C14:evaluate-samples:{class}"), format!("step {step}: sample {id}: {detail}"));
+                                                    }
+                                                    for e in &s1.evaluated_constraints {
+                                                        if let Some((reason, _)) = m.removed.get(&e.id) {
+                                                            if e.removed_reason.as_ref() != Some(reason) {
+                                                                x.violate("C14:evaluate-samples:reason", format!("step {step}: sample {id}: constraint {} reported with reason {:?}, recorded {:?}", e.id, e.removed_reason, reason));
+                                                            }
+                                                        }
+                                                    }
+                                                }
+                                            }
+                                        }
+                                    }
+                                }
                             }
                             // the reason and metadata reported with each constraint
                             for e in &sol.evaluated_constraints {
